@@ -338,9 +338,10 @@ class DB:
         self.backup_fs(flush_data.state.height, flush_data.state.tx_count)
         self.history.backup(touched, flush_data.state.tx_count)
         self.flush_utxo_db(flush_data)
-        # Truncate header_mc only now that self.state no longer offers the headers backed
-        # out to its readers: header count is 1 more than the height.
-        self.header_mc.truncate(flush_data.state.height + 1)
+        # self.header_mc is not truncated here: this runs in a worker thread and MerkleCache
+        # is not thread-safe.  The caller truncates it from the event loop's thread once this
+        # has returned, i.e. after self.state stopped offering the headers backed out to its
+        # readers (see BlockProcessor.backup_and_truncate).
 
         self.log_flush_stats('backup flush', flush_data, time.time() - start_time)
 
